@@ -59,12 +59,13 @@ def _mk_signs(rc, d2pi, rbt, gfile=True):
     return body
 
 
-def ob_extrapolate(env, d2pi=False):
+def ob_extrapolate(env, d2pi=False, rc=False):
     """extrapolate_profiles: the appended pressure values continue the profile: p0*exp((psi-psi0)*p'/p0), psi0 and p' in the flux the profile
     splines are built in (after psi_divide_twopi)"""
-    psi_sol = 50.0
+    sgn = -1.0 if rc else 1.0
+    psi_sol = sgn * 50.0
     try:
-        loc, orig, given, me, _ = c14.run_prologue(env, False, d2pi, False, True, psi_sol=psi_sol)
+        loc, orig, given, me, _ = c14.run_prologue(env, rc, d2pi, False, True, psi_sol=psi_sol)
     except UnboundLocalError as e:
         if "psiSOL" not in str(e):
             raise
@@ -75,8 +76,8 @@ def ob_extrapolate(env, d2pi=False):
     n0 = 3
     env.claim("profiles_extended_together", len(psi1D) == len(pressure) == len(fpol1D) and len(psi1D) == n0 + 49)
     div = TWOPI if d2pi else 1.0
-    p0, psi0 = orig["pressure"][-1], orig["psi1D"][-1] / div
-    dpdpsi = (orig["pressure"][-1] - orig["pressure"][-2]) / (orig["psi1D"][-1] / div - orig["psi1D"][-2] / div)
+    p0, psi0 = orig["pressure"][-1], sgn * orig["psi1D"][-1] / div
+    dpdpsi = (orig["pressure"][-1] - orig["pressure"][-2]) / (sgn * orig["psi1D"][-1] / div - sgn * orig["psi1D"][-2] / div)
     if env.mode == "sym":
         env.add_uf_axioms()
     for k in (n0, n0 + 1, n0 + 48):
@@ -89,7 +90,7 @@ def ob_extrapolate(env, d2pi=False):
         env.claim_eq("pressure_knot=p0*exp((psi-psi0)*p'/p0)", pressure[k], want)
         env.claim_eq("fpol_constant_in_SOL", fpol1D[k], orig["fpol1D"][-1])
     env.claim_eq("last_knot_at_psi_outer", psi1D[-1], psi_sol)
-    env.claim("extended_abscissa_increasing", psi1D[n0] > psi1D[n0 - 1])
+    env.claim("extended_abscissa_continues_outwards", psi1D[n0] < psi1D[n0 - 1] if rc else psi1D[n0] > psi1D[n0 - 1])
 
 
 def ob_extrapolate_finite(env):
@@ -357,6 +358,10 @@ OBLIGATIONS.append(Ob("extrapolated_pressure_continuous_psi_divide_twopi", lambd
                       encodes=["hypnotoad.cases.tokamak:TokamakEquilibrium.__init__"],
                       desc="extrapolate_profiles with psi_divide_twopi: edge value, edge gradient and decay of the appended pressure knots are all in the divided flux",
                       stubs=["exp uninterpreted"], bounds="3 profile points, psi_sol=50 beyond the profile"))
+OBLIGATIONS.append(Ob("extrapolated_pressure_continuous_reverse_current", lambda env: ob_extrapolate(env, rc=True), tier="quick", family="extrapolation",
+                      encodes=["hypnotoad.cases.tokamak:TokamakEquilibrium.__init__"],
+                      desc="extrapolate_profiles with reverse_current (psi negated, decreasing outwards): edge value, edge gradient and decay of the appended pressure knots in the negated flux",
+                      stubs=["exp uninterpreted"], bounds="3 profile points, psi_sol=-50 beyond the negated profile"))
 for _inc in (True, False):
     OBLIGATIONS.append(Ob("profile_splines_psi_%s" % ("increasing" if _inc else "decreasing"), _mk_splines(_inc), tier="quick", family="profiles",
                           encodes=["hypnotoad.cases.tokamak:TokamakEquilibrium.__init__", "hypnotoad.cases.tokamak:TokamakEquilibrium.fpol",
